@@ -586,7 +586,7 @@ def run(ctx):
     par = max(2, NPROC // 4)
     results = {}
     with ThreadPoolExecutor(max_workers=par) as ex:
-        for idx, out, logs in ex.map(lambda it: run_round(exe, it[1], ctx.work, it[0], None, 600 if ctx.quick else 1800), list(enumerate(rounds))):
+        for idx, out, logs in ex.map(lambda it: run_round(exe, it[1], ctx.work, it[0], None, 90 if ctx.quick else 300), list(enumerate(rounds))):
             results[idx] = (out, logs)
     ctx.log('%d rounds: %.0fs' % (len(rounds), time.time() - t0))
     dist = {'threads': {}, 'kinds': {}, 'races_by_location': {}, 'ops': {}}
@@ -607,6 +607,10 @@ def run(ctx):
         if died and kspq and uses_spq and re.search(r'ThreadSanitizer: (SEGV|DEADLYSIGNAL)', logs + out['par'][2]) and any(nm in logs for nm in kspq['key']['race_in']):
             a = agg.setdefault(kspq['id'], dict(k=kspq, n=0, crashes=0)); a['crashes'] = a.get('crashes', 0) + 1
             ctx.count(('round', rnd['text']), True)
+            continue
+        if out['seq'][0] == -9 and out['seq2'][0] == -9:
+            # the programs do not even terminate when run one after the other: not a question of interference (reported in the evidence, see C12)
+            dist.setdefault('sequential_baseline_did_not_terminate', []).append(os.path.join(ctx.work, 'round_%d.in' % idx)); ctx.count(('round', rnd['text']), False)
             continue
         if died or out['seq'][0] != 0:
             ctx.count(('round', rnd['text']), False)
